@@ -67,12 +67,6 @@ class Check:
 
     # -- finishing ------------------------------------------------------
     def finish(self):
-        violated = any(o["verdict"] == "VIOLATED" for o in self.obligations)
-        for rule, count, minimum in self.floors:
-            # a reported violation is not a vacuous pass: floors only guard runs that report nothing
-            if count < minimum and not violated:
-                raise AnalysisBroken("rule %s matched %d instances, confirmed minimum is %d "
-                                     "(anchor moved or extractor blind)" % (rule, count, minimum))
         known = load_known()
         kf = [f for f in known.get("findings", []) if f["property"] == self.pid]
         viol = [o for o in self.obligations if o["verdict"] == "VIOLATED"]
@@ -90,6 +84,11 @@ class Check:
                 v["verdict"] = "KNOWN-FINDING"
             else:
                 unlisted.append(v)
+        for rule, count, minimum in self.floors:
+            # a reported (unlisted) violation is not a vacuous pass: floors only guard runs that report nothing new
+            if count < minimum and not unlisted:
+                raise AnalysisBroken("rule %s matched %d instances, confirmed minimum is %d "
+                                     "(anchor moved or extractor blind)" % (rule, count, minimum))
         os.makedirs(os.path.join(EVID, "replay"), exist_ok=True)
         for v, f in listed:
             print("KNOWN-FINDING: property=%s %s" % (self.pid, f.get("what", v["detail"])))
